@@ -3,10 +3,12 @@ from vx.assemble import Fn, Type, Raw, Loop, ClosureRw
 
 PROPERTIES = ['C07']
 STDMODEL = []
+HEADER = 'use vstd::std_specs::ops::SubSpec;'
 DT = 'cedar-policy-core/src/extensions/datetime.rs'
 DEC = 'cedar-policy-core/src/extensions/decimal.rs'
 ASSUMPTIONS = [
     'i64::is_negative, checked_rem_euclid (Euclidean remainder), checked_pow as specified in std (assume_specification); the other checked_* operations use vstd specs.',
+    'chrono (NaiveDateTime, DateTime<Utc>, TimeDelta) is modelled by its documented millisecond arithmetic (units/ext_int/chrono.rs).',
     'Only the integer kernels are covered: which strings the constructors accept (regex, chrono, str::parse) is trusted; the &[Value] wrappers (downcasts through dyn Any) are not extracted.',
 ]
 DERIVE = ['derive(Clone, Copy)']
@@ -15,6 +17,7 @@ ITEMS = [
     Raw(file='prelude.rs', tag='prelude'),
     Type(DT, 'struct DateTime', attrs=DERIVE),
     Type(DT, 'struct Duration', attrs=DERIVE),
+    Raw(file='chrono.rs', tag='prelude'),
     Type(DT, 'struct UTCOffset'),
     Type(DT, 'impl DateTime > const DAY_IN_MILLISECONDS', wrap='impl DateTime'),
     Fn(DT, 'impl DateTime > fn offset', name='DateTime::offset', wrap='impl DateTime',
@@ -27,6 +30,10 @@ ITEMS = [
        ensures=[('floor_day', f'match r {{ Some(d) => d.epoch == (self.epoch as int / {DAY}) * {DAY}, None => !fits_i64((self.epoch as int / {DAY}) * {DAY}) }}')]),
     Fn(DT, 'impl DateTime > fn to_time', name='DateTime::to_time', wrap='impl DateTime',
        ensures=[('euclid_rem', f'r.ms == self.epoch as int % {DAY}'), ('range', f'0 <= r.ms < {DAY}')]),
+    Fn(DT, 'impl From<NaiveDateTime> for DateTime > fn from', name='DateTime::from<NaiveDateTime>', wrap='impl DateTime',
+       sig_rewrites=[(r'fn from\(', 'fn from_naive(', 1)],
+       proof_start='broadcast use chrono::ax_sub, chrono::ax_epoch, chrono::ax_range, chrono::ax_range_dt;',
+       ensures=[('exact', 'r.epoch == value.ms()')]),
     Fn(DT, 'impl Duration > fn to_milliseconds', wrap='impl Duration', ensures=[('ms', 'r == self.ms')]),
     Fn(DT, 'impl Duration > fn to_seconds', wrap='impl Duration', ensures=[('trunc', 'r == trunc_div(self.ms as int, 1000)')]),
     Fn(DT, 'impl Duration > fn to_minutes', wrap='impl Duration', ensures=[('trunc', 'r == trunc_div(self.ms as int, 60000)')]),
